@@ -180,7 +180,7 @@ def task_long_axis(ctx, K):
   tri = np.tril(np.ones((K, K)))
   for shape, axis in (((K,), 0), ((2, K), 1)):
     c = dict(levels=f'equidistant-{K}', K=K, shape=list(shape), axis=axis)
-    sp = Space(bits=12)
+    sp = Space(bits=(12 if 2 * K < 4000 else 14))
     x = PolyArr.variables(sp, 'x', shape)
 
     def cumsum_ref(x):
@@ -192,7 +192,7 @@ def task_long_axis(ctx, K):
               (pre, suf, pre, suf, pre / K, suf / K, jnp.sum(x, axis=axis, keepdims=True) / K))
     prove_close(ctx, 'long_axis.cumulative_sums_and_integrals_equal_prefix_sums', cumsum_ref, [x], sp, config=c, scale_floor=1.0)
   # both geopotential strategies on the long column (the cumulative-sum one is chosen automatically under a vertical mesh)
-  sp = Space(bits=12)
+  sp = Space(bits=(12 if 2 * K < 4000 else 14))
   t = PolyArr.variables(sp, 'T', (K, 1, 1))
   prove_close(ctx, 'long_axis.geopotential_strategies_agree', lambda t: (pe.get_geopotential_diff(t, coords, 1.3, method='sparse'), pe.get_geopotential_diff(t, coords, 1.3, method='dense')),
               [t], sp, config=dict(levels=f'equidistant-{K}', K=K), scale_floor=1.0)
